@@ -200,6 +200,32 @@ def step (st : St) (line : String) : St × String :=
       | .engine, "all" => { st with engineAll := stored }
       | _, _ => st
     (st, verdict)
+  | ["enginegap", which, gap] =>
+    -- one query alone through the engine, events `gap` seconds apart, `.within(1m)`
+    match (if which.startsWith "alone" then (which.drop 5).toString.toNat? else none), gap.toNat? with
+    | some i, some g =>
+      if i ≥ st.qs.length then (st, "BADLINE") else
+      let q := st.qs[i]!
+      let model : Reports := (EngineImpl.run [q] st.evs, [])
+      let modelS := fmt model
+      match parseImpl impl with
+      | none => (st, s!"JUDGE unreadable answer ({impl}); documented behaviour: {modelS}")
+      | some r =>
+        let asModel := impl == modelS
+        let timed : List (Ty × Nat) := st.evs.zipIdx.map fun (t, k) => (t, g * k)
+        let oracle := fun (n : Nat) => (Spec.trendsW q 60 (timed.take n)).length
+        let inc := r.1.filter (·.2.1 == 0)
+        let bad := inc.filter fun (k, _, v) => v != oracle (k + 1)
+        let fin := (((inc.mergeSort lt3).getLast?).map (·.2.2)).getD 0
+        let spanOver : Bool := g * (st.evs.length - 1) > 60
+        let cls : Nat → Nat → String → String × Bool × String := fun v unwindowed txt =>
+          if v == unwindowed then ("C25-window-ignored", spanOver, txt) else ("C25-engine-count", hasStart q st.evs, txt)
+        let fails := (bad.map fun (k, _, v) =>
+            cls v (dpCount q (st.evs.take (k + 1))) s!"query reported {v} after event {k}, trends within 60 s so far: {oracle (k + 1)}") ++
+          (if fin != oracle st.evs.length then
+            [cls fin (dpCount q st.evs) s!"query last reported {fin}, trends within the 60 s window: {oracle st.evs.length}"] else [])
+        (st, conclude fails asModel modelS impl)
+    | _, _ => (st, "BADLINE")
   | _ => (st, "BADLINE")
 
 --! vmodel: trend => Varpulis.Driver.TrendD.driver
